@@ -402,7 +402,6 @@ harnesses! {
     fn c15_request_rt_varint() [unwind 18] { c15_request_rt(Mode::Varint, false) }
     fn c15_request_rt_fixint() [unwind 18] { c15_request_rt(Mode::Fixint, false) }
     fn c15_request_rt_json() [unwind 18] { c15_request_rt(Mode::Json, true) }
-    fn c15_request_rt_mapjson() [unwind 18] { c15_request_rt(Mode::Json, false) }
     fn c15_request_array_body_varint() [unwind 18] { c15_request_array_body(Mode::Varint) }
     fn c15_cancel_rt_varint() [unwind 18] { c15_cancel_rt(Mode::Varint, false) }
     fn c15_cancel_rt_mapjson() [unwind 18] { c15_cancel_rt(Mode::Json, false) }
@@ -410,7 +409,6 @@ harnesses! {
     fn c15_response_ok_rt_varint() [unwind 12] { c15_response_ok_rt(Mode::Varint) }
     fn c15_response_ok_rt_json() [unwind 12] { c15_response_ok_rt(Mode::Json) }
     fn c15_response_err_rt_varint() [unwind 12] { c15_response_err_rt(Mode::Varint) }
-    fn c15_response_err_rt_json() [unwind 12] { c15_response_err_rt(Mode::Json) }
     fn c15_errkind_rt_varint() [unwind 8] { c15_errkind_rt(Mode::Varint) }
     fn c15_errkind_rt_fixint() [unwind 8] { c15_errkind_rt(Mode::Fixint) }
     fn c15_errkind_rt_json() [unwind 8] { c15_errkind_rt(Mode::Json) }
